@@ -461,7 +461,7 @@ func main() {
 		"valid shares mixed with shares for another message, of another key, undecodable, zero, summed, of a later timeout count, duplicates and " +
 		"shares of a node outside the magic block; in two of three views the round is restarted (Round.Restart + IncrementTimeoutCount) after a phase with fewer than t shares or after any phase, and shares for the new timeout count follow; non-trivial = at least one share rejected, one view completed and one view (or prefix) below t; " +
 		"distinct by all inputs"
-	cf := &vh.CasesFile{Imports: []string{"Base.Corr", "Model.DKGZ", "Model.VRFAdmit", "Corr.VRF"}, CaseType: "vzc_case", CheckFn: "vzc_check", Shard: 18}
+	cf := &vh.CasesFile{Imports: []string{"Base.Corr", "Model.DKGZ", "Model.VRFAdmit", "Model.VRFZ", "Corr.VRF"}, CaseType: "vzc_case", CheckFn: "vzc_check", Shard: 18}
 
 	handle := func(s scen) {
 		out := run(s)
